@@ -281,8 +281,14 @@ func ZZ_C14_Expired() {
 	d := vfI64("advance")
 	vfAssume(d >= 0)
 	vfAssume(d <= 1<<31)
-	vfClockSet(h.origin + d)
+	// the cached clock was last refreshed at an arbitrary earlier instant (maintenance may be delayed): the copy
+	// in the secondary tier is judged by the precise clock
+	c := vfI64("cachedClockAt")
+	vfAssume(c >= 0)
+	vfAssume(c <= d)
+	vfClockSet(h.origin + c)
 	s.timerwheel.clock.RefreshNowCache()
+	vfClockSet(h.origin + d)
 	v, hit, _ := s.GetWithSecodary(1)
 	vfReach("read")
 	vfAssert("no-hit-at-or-after-deadline", vfImplies(hit, d < 1<<29))
@@ -336,8 +342,12 @@ func ZZ_C15_ReloadAfterSecondaryExpiry() {
 	d := vfI64("advance")
 	vfAssume(d >= 1<<29)
 	vfAssume(d <= 1<<31)
-	vfClockSet(h.origin + d)
+	c := vfI64("cachedClockAt") // the cached clock may be stale: the secondary copy is judged by the precise clock
+	vfAssume(c >= 0)
+	vfAssume(c <= d)
+	vfClockSet(h.origin + c)
 	s.timerwheel.clock.RefreshNowCache()
+	vfClockSet(h.origin + d)
 	v3, err3 := ls.Get(context.Background(), 1) // the secondary copy has expired: load #3
 	h.settle()
 	vfReach("reloaded")
